@@ -742,9 +742,43 @@ func helpers(run *kit.Run) {
 	}
 	var cur hc
 	var gotErr error
-	f.MustHandle("POST", "/h", func(c fox.Context) { gotErr = cur.do(c) })
-	for _, c := range cases {
+	var ctxKind int
+	f.MustHandle("POST", "/h", func(c fox.Context) {
+		switch ctxKind {
+		case 1:
+			// a copy of the context with the same writer and request (as a wrapping middleware hands on)
+			cc := c.CloneWith(c.Writer(), c.Request())
+			defer cc.Close()
+			gotErr = cur.do(cc)
+		case 2:
+			// a context looked up by hand with the request's writer
+			if rte, cc, _ := c.Fox().Lookup(c.Writer(), c.Request()); rte != nil {
+				defer cc.Close()
+				gotErr = cur.do(cc)
+			}
+		case 3:
+			// another fox writer put in place of the context's own (it wraps the same underlying writer)
+			_, tc := fox.NewTestContext(c.Writer(), c.Request())
+			c.SetWriter(tc.Writer())
+			gotErr = cur.do(c)
+		default:
+			gotErr = cur.do(c)
+		}
+	})
+	base := cases
+	cases = nil
+	var kindOf []int
+	for kind, kname := range []string{"", " [on a CloneWith copy]", " [on a Lookup context]", " [after SetWriter]"} {
+		for _, c := range base {
+			c2 := c
+			c2.name += kname
+			cases = append(cases, c2)
+			kindOf = append(kindOf, kind)
+		}
+	}
+	for ci, c := range cases {
 		cur = c
+		ctxKind = kindOf[ci]
 		u := &under{h: http.Header{}, limit: -1}
 		req := &http.Request{Method: "POST", URL: &url.URL{Path: "/h"}, Header: http.Header{}, Proto: "HTTP/1.1", ProtoMajor: 1, ProtoMinor: 1}
 		id := "helper|" + c.name
@@ -774,4 +808,49 @@ func helpers(run *kit.Run) {
 		}
 	}
 	run.Count("helper_cases", int64(len(cases)))
+	nested(run)
+}
+
+// nested: a router mounted inside a route of another is given the outer context's writer as its http.ResponseWriter;
+// everything the inner handler sends goes through that writer, whose Status, Size and Written then reflect it.
+func nested(run *kit.Run) {
+	outer, inner := newRouter(), newRouter()
+	inner.MustHandle("GET", "/n/{id}", func(c fox.Context) {
+		c.Writer().WriteHeader(201)
+		_, _ = c.Writer().Write([]byte("created"))
+		if c.Writer().Status() != 201 || c.Writer().Size() != 7 || !c.Writer().Written() {
+			run.Violate("nested|inner-accounting", fmt.Sprintf("inner writer: Status()=%d Size()=%d Written()=%t after WriteHeader(201)+Write(7 bytes)", c.Writer().Status(), c.Writer().Size(), c.Writer().Written()), nil)
+		}
+	})
+	outer.MustHandle("GET", "/n/{id}", func(c fox.Context) {
+		inner.ServeHTTP(c.Writer(), c.Request())
+		w := c.Writer()
+		if w.Status() != 201 || w.Size() != 7 || !w.Written() {
+			run.Violate("nested|outer-accounting", fmt.Sprintf("a router mounted inside this route sent 201 and 7 body bytes through this context's writer, which reports Status()=%d Size()=%d Written()=%t", w.Status(), w.Size(), w.Written()), nil)
+		}
+		// the response has been started: a fallback that checks Written() must not send anything more
+		if !w.Written() {
+			w.WriteHeader(502)
+		}
+	})
+	for i := 0; i < 20; i++ {
+		u := &under{h: http.Header{}, limit: -1}
+		req := &http.Request{Method: "GET", URL: &url.URL{Path: "/n/7"}, Header: http.Header{}, Proto: "HTTP/1.1", ProtoMajor: 1, ProtoMinor: 1}
+		run.Guard("nested-panic", nil, func() { outer.ServeHTTP(u, req) })
+		var body strings.Builder
+		finals := 0
+		for _, e := range u.log {
+			if e.kind == "header" && e.code >= 200 {
+				finals++
+			}
+			if e.kind == "body" {
+				body.WriteString(e.data)
+			}
+		}
+		run.Eval(1)
+		if finals != 1 || body.String() != "created" {
+			run.Violate("nested|forwarding", fmt.Sprintf("the underlying writer received %d final status codes and body %q, the mounted router sent 201 and %q", finals, body.String(), "created"), nil)
+		}
+	}
+	run.Case("nested-router", true)
 }
